@@ -271,6 +271,129 @@ def run_procs_case(spec: dict[str, Any]) -> dict[str, Any]:
             'aborted': res['aborted']}
 
 
+def run_retry_edges(spec: dict[str, Any]) -> dict[str, Any]:
+    """FileLock with a SHORT retry schedule (n delays): the holder leaves just
+    before the waiter's k-th re-test, k = 1..n (k = n is the last re-test,
+    k = n+1 a genuine time-out), the waiter's body optionally raises, an
+    optional second waiter.  Whatever the waiters were told (entered or
+    TimeoutError), two writers never overlap and once every task has left
+    the lock file is gone and a fresh writer gets in without waiting."""
+    import asyncio
+    import os
+    import tempfile
+    from pymap.concurrent import FileLock
+    from .. import loop as L
+    n, k = spec['n'], spec['k']
+    d = tempfile.mkdtemp(prefix='vf-c20r-')
+    path = os.path.join(d, 'x.lock')
+    viols: list[dict[str, Any]] = []
+    counters = {'retry_edge_runs': 0, 'retry_edge_entered': 0,
+                'retry_edge_timeouts': 0, 'retry_edge_last_retry_wins': 0}
+    log: list[Any] = []
+
+    def mk() -> Any:
+        delay = (1.0,) * n
+        return FileLock(path, read_retry_delay=delay,
+                        write_retry_delay=delay)
+
+    async def main(loop: Any) -> None:
+        inside: list[str] = []
+        release = loop.create_future()
+
+        async def holder() -> None:
+            async with mk().write_lock():
+                inside.append('h')
+                log.append(('enter', 'h'))
+                await release
+                inside.remove('h')
+                log.append(('exit', 'h'))
+
+        async def waiter(name: str, raises: bool) -> None:
+            try:
+                async with mk().write_lock():
+                    if inside:
+                        viols.append({
+                            'mech': 'two-writers-inside',
+                            'detail': '%s entered while %r inside'
+                            % (name, inside)})
+                    inside.append(name)
+                    log.append(('enter', name))
+                    counters['retry_edge_entered'] += 1
+                    if k == n:
+                        counters['retry_edge_last_retry_wins'] += 1
+                    await asyncio.sleep(0)
+                    inside.remove(name)
+                    log.append(('exit', name))
+                    if raises:
+                        raise ZeroDivisionError()
+            except ZeroDivisionError:
+                pass
+            except TimeoutError:
+                counters['retry_edge_timeouts'] += 1
+                log.append(('timeout', name))
+
+        th = loop.create_task(holder())
+        await loop.quiescent()
+        tw = [loop.create_task(waiter('w1', spec['raises']))]
+        await loop.quiescent()
+        if spec['second']:
+            await loop.advance(0.25)
+            tw.append(loop.create_task(waiter('w2', False)))
+            await loop.quiescent()
+        await loop.advance(k - 0.5 - (0.25 if spec['second'] else 0.0))
+        await loop.quiescent()
+        release.set_result(None)
+        await loop.quiescent()
+        for _ in range(2 * n + 4):
+            await loop.advance(1.0)
+            await loop.quiescent()
+        if not (th.done() and all(t.done() for t in tw)):
+            for t in [th] + tw:
+                t.cancel()
+            return
+        counters['retry_edge_runs'] += 1
+        if os.path.exists(path):
+            viols.append({
+                'mech': 'lock-not-released',
+                'detail': 'FileLock with %d retry delays, holder left before '
+                're-test %d: every task has left (log %r) but the lock file '
+                'is still there' % (n, k, log)})
+            return
+        got: list[int] = []
+
+        async def fresh() -> None:
+            async with mk().write_lock():
+                got.append(1)
+        co = fresh()
+        try:
+            co.send(None)
+        except StopIteration:
+            pass
+        else:
+            co.close()
+            viols.append({'mech': 'lock-not-released',
+                          'detail': 'a fresh writer has to wait'})
+
+    aborted = None
+    try:
+        L.run(main, max_steps=200_000)
+    except L.Deadlock:
+        aborted = 'deadlock'
+    finally:
+        import shutil
+        shutil.rmtree(d, ignore_errors=True)
+    for v in viols:
+        v['witness'] = {'impl': 'file', 'spec': spec,
+                        'log': [list(e) for e in log]}
+    sig = hashlib.sha1(repr(('retry', sorted(spec.items()))).encode()
+                       ).hexdigest()[:16]
+    return {'violations': viols, 'counters': counters, 'sig': sig,
+            'nontrivial': counters['retry_edge_runs'] > 0,
+            'sample': {'impl': 'file', 'mode': 'retry-edges', 'spec': spec,
+                       'log': [list(e) for e in log]},
+            'aborted': aborted}
+
+
 def run_thread_script(spec: dict[str, Any]) -> dict[str, Any]:
     from .. import c20_threads as T
     if spec['script'] == 'threads-writer-joins-passing-reader':
@@ -320,7 +443,8 @@ class C20(Check):
               'cancel_points_run': 150, 'followups_run': 5000,
               'free_probes': 50000, 'thread_reps': 300,
               'thread_requests_while_busy': 500, 'proc_rounds': 8,
-              'proc_found_busy': 200, 'bodies_raised': 1000}
+              'proc_found_busy': 200, 'bodies_raised': 1000,
+              'retry_edge_runs': 60, 'retry_edge_last_retry_wins': 10}
     time_cap = {'quick': 150.0, 'thorough': 1500.0}
 
     def cases(self, tier: str, seed: int) -> Iterable[dict[str, Any]]:
@@ -415,6 +539,14 @@ class C20(Check):
         for i in range(24 if quick else 400):
             add(mode='procs', nproc=2 + i % 3, iters=120 if quick else 300,
                 raise_every=rng.choice([0, 3, 7]))
+        # 9. FileLock with short retry schedules: the holder leaves just
+        # before each re-test of the waiter, the last one included
+        for n in (1, 2, 3, 4, 6):
+            for kk in range(1, n + 2):
+                for raises in (False, True):
+                    for second in (False, True):
+                        add(mode='retry-edges', n=n, k=kk, raises=raises,
+                            second=second)
         rng.shuffle(out)
         return out
 
@@ -429,6 +561,8 @@ class C20(Check):
             return run_threads(spec)
         if mode == 'procs':
             return run_procs_case(spec)
+        if mode == 'retry-edges':
+            return run_retry_edges(spec)
         return explore(spec)
 
 
